@@ -2,6 +2,7 @@ package routing
 
 import (
 	"fmt"
+	"math/bits"
 	"net/netip"
 )
 
@@ -51,6 +52,15 @@ func divideAndRound(v uint64, d uint64) uint64 {
 	return tmp / d
 }
 
+// shiftDivideAndRound returns (v<<31)/d rounded to the nearest integer for v <= d, computed in 128 bits. With many
+// gateways of large weight v<<31 + d/2 does not fit in 64 bits even though every single weight is valid.
+func shiftDivideAndRound(v uint64, d uint64) uint64 {
+	hi, lo := bits.Mul64(v, 1<<31)
+	lo, carry := bits.Add64(lo, d/2, 0)
+	q, _ := bits.Div64(hi+carry, lo, d)
+	return q
+}
+
 // Implements Hash-Threshold mapping, equivalent to the implementation in the linux kernel.
 // After this function returns each gateway will have a
 // positive bucketUpperBound with a maximum value of 2147483647 (INT_MAX)
@@ -64,7 +74,7 @@ func CalculateBucketsForGateways(gateways []Gateway) {
 	var loopWeight int = 0
 	for i := range gateways {
 		loopWeight += gateways[i].weight
-		gateways[i].bucketUpperBound = int(divideAndRound(uint64(loopWeight)<<31, uint64(totalWeight))) - 1
+		gateways[i].bucketUpperBound = int(shiftDivideAndRound(uint64(loopWeight), uint64(totalWeight))) - 1
 	}
 
 }
